@@ -483,6 +483,11 @@ func (run *liveRun) step(s *LStep, viaYield int) {
 			for _, id := range run.w.SF {
 				run.refsUp[fmt.Sprintf("sf%d", id)] = true
 			}
+			for _, en := range run.w.Ents {
+				if en.Kind == "proc" {
+					run.refsUp[fmt.Sprintf("pf%d", en.ID)] = true
+				}
+			}
 			if run.instUp {
 				for _, id := range run.w.BM {
 					run.refsUp[fmt.Sprintf("bm%d", id)] = true
@@ -922,6 +927,25 @@ func (run *liveRun) obs(kind string, id int, val goatlang.Value) {
 			}
 			run.fail(rule, kind, "%s of entity %d reports %d (version %d), but the versions it may have after the loads so far are %s", what, id, v, ver, st)
 		}
+	case "pc", "pf":
+		st := run.ent[id]
+		e := run.w.ent(id)
+		if st == nil || e == nil || st.unknown {
+			run.setObs++
+			return
+		}
+		ok := false
+		for ver, may := range st.vers {
+			want := tag(ver, id)
+			if procEmpty(e, ver) {
+				want = -7
+			}
+			ok = ok || may && want == v
+		}
+		if !ok {
+			how := map[string]string{"pc": "a direct call", "pf": "a call through a function value captured before the reload"}[kind]
+			run.fail("C17/newcode", kind, "%s of procedure %d left %d in its variable (-7 = it did nothing), but the versions it may have after the loads so far are %s (empty body in version(s) %v)", how, id, v, st, emptyVers(e))
+		}
 	case "bk":
 		if st := run.ent[id]; st != nil && !st.unknown && v != bulkN {
 			run.fail("C17/reinit", "bulk", "initialised slice variable %d has %d elements, every version initialises it with %d", id, v, bulkN)
@@ -968,6 +992,16 @@ func (run *liveRun) obs(kind string, id int, val goatlang.Value) {
 	}
 }
 
+func emptyVers(e *LEnt) []int {
+	var out []int
+	for v := 0; v < 9; v++ {
+		if procEmpty(e, v) {
+			out = append(out, v)
+		}
+	}
+	return out
+}
+
 func keysOf(m map[int]bool) []int {
 	var ks []int
 	for k := range m {
@@ -999,6 +1033,8 @@ func (run *liveRun) checkComplete() {
 			need(fmt.Sprintf("zv%d", e.ID), "variable")
 		case "bulk":
 			need(fmt.Sprintf("bk%d", e.ID), "variable")
+		case "proc":
+			need(fmt.Sprintf("pc%d", e.ID), "function")
 		case "method":
 			if run.instUp {
 				need(fmt.Sprintf("im%d", e.ID), "instance")
